@@ -244,6 +244,15 @@ fn c12x_array_wrong_type() {
     let scalar: Value = Value::Int(Some(kani::any()));
     let r2 = <Vec<i32> as ValueType>::try_from(scalar);
     assert!(r2.is_err());
+    // the element type is part of the value even when there is no element to look at
+    let empty: Value = Vec::<i32>::new().into();
+    assert!(matches!(empty, Value::Array(ArrayType::Int, Some(_))));
+    let r3 = <Vec<bool> as ValueType>::try_from(empty);
+    assert!(r3.is_err());
+    let empty2: Value = Vec::<bool>::new().into();
+    let r4 = <Option<Vec<i32>> as ValueType>::try_from(empty2);
+    assert!(r4.is_err());
+    std::mem::forget((r3, r4));
     kani::cover!(true, "harness reaches its end");
     std::mem::forget((r, ob, r2));
 }
